@@ -91,7 +91,12 @@ func (g *G) OverloadItem() Item {
 		return strings.Join(n, ", ")
 	}
 	var declX, declG strings.Builder
-	recvT := id + "T"
+	// identifier shapes: underscores in the receiver type name and in the overloaded name take part in
+	// the name of the generated overload variable (Gopo_T_m vs Gopo__T__m)
+	recvT := []string{id + "T", id + "_T", "t_" + id + "_x"}[g.Intn(3, "recvname")]
+	if g.Chance(30, "ovname_") {
+		id = id + "_f"
+	}
 	isMethod := style == "method"
 	if isMethod {
 		fmt.Fprintf(&declX, "type %s struct {\n\tn int\n}\n\n", recvT)
@@ -169,7 +174,8 @@ func (g *G) OverloadItem() Item {
 	}
 	return Item{Kind: "overload-" + style, X: x.String(), G: gg.String(), DeclX: declX.String(), DeclG: declG.String(),
 		Key:        fmt.Sprintf("overload/%s/%v/%v", style, tags, order),
-		NonTrivial: k >= 3 || style == "mixed", Labels: []string{fmt.Sprintf("cands=%d", k), "order=" + fmt.Sprint(order)[:min(len(fmt.Sprint(order)), 9)]}}
+		NonTrivial: k >= 3 || style == "mixed", Labels: []string{fmt.Sprintf("cands=%d", k), "order=" + fmt.Sprint(order)[:min(len(fmt.Sprint(order)), 9)],
+			fmt.Sprintf("underscore-names=%v/%v", isMethod && strings.Contains(recvT, "_"), strings.Contains(id, "_"))}}
 }
 
 // operatorItem: operators overloaded on a struct type, single-type and multi-type forms.
